@@ -84,6 +84,8 @@ func main() {
 	}
 	if prop == "C06" {
 		rn.eintrPhase()
+		rn.mutexPhase()
+		rn.kernelModelPhase()
 		rn.stressPhase()
 		rn.scenarioPhase([]string{"inherit-write", "inherit-read", "quietread-write", "quietread-create", "handover-edit", "handover-mutex",
 			"exclhold-read", "exclhold-edit", "exclhold-mutex", "exclhold-open", "exclhold-read+append", "exclhold-edit+sync"})
@@ -200,11 +202,28 @@ func (rn *runner) stressRound(procs, gor, iters, npaths int, seed uint64) bool {
 	return len(viols) > 0
 }
 
-func (rn *runner) stressPhase() {
-	rounds, procs, gor, iters := 6, 8, 4, 200
+// tierSizes: "rounds,procs,goroutines,iterations" of a phase; the defaults can be overridden
+// per tier from props/Cxx.json (runner_env: LF_<PHASE>_QUICK / LF_<PHASE>_THOROUGH).
+func (rn *runner) tierSizes(phase string, quick, thorough [4]int) (int, int, int, int) {
+	v := quick
+	key := "LF_" + phase + "_QUICK"
 	if rn.f.Tier != "quick" {
-		rounds, procs, gor, iters = 12, 8, 6, 600
+		v, key = thorough, "LF_"+phase+"_THOROUGH"
 	}
+	if s := os.Getenv(key); s != "" {
+		var a, b, c, d int
+		if n, _ := fmt.Sscanf(s, "%d,%d,%d,%d", &a, &b, &c, &d); n == 4 && a > 0 && b > 0 && c > 0 && d > 0 {
+			v = [4]int{a, b, c, d}
+		} else {
+			rn.res.Notes = append(rn.res.Notes, "ignored malformed "+key+"="+s)
+		}
+	}
+	rn.res.Notes = append(rn.res.Notes, fmt.Sprintf("%s sizes (rounds,procs,goroutines,iters) = %v", phase, v))
+	return v[0], v[1], v[2], v[3]
+}
+
+func (rn *runner) stressPhase() {
+	rounds, procs, gor, iters := rn.tierSizes("STRESS", [4]int{6, 8, 4, 200}, [4]int{12, 8, 6, 600})
 	for r := 0; r < rounds; r++ {
 		if rn.stressRound(procs, gor, iters, 1+r%3, rn.rng.Uint64()%1000000) {
 			break
